@@ -159,10 +159,22 @@ def safename(name: str) -> str:
     return safe_simple_name(name)
 
 
+# Words the UVL lexer reads as keywords: as identifiers they must be quoted
+UVL_KEYWORDS = {'include', 'namespace', 'imports', 'as', 'features', 'cardinality', 'constraint',
+                'constraints', 'sum', 'avg', 'len', 'floor', 'ceil', 'String', 'Integer', 'Real',
+                'Boolean', 'Arithmetic', 'Type', 'or', 'alternative', 'optional', 'mandatory',
+                'true', 'false'}
+
+
 def safe_simple_name(name: str) -> str:
     if name.startswith("'") and name.endswith("'"):
         return name
-    return f'"{name}"' if any(char not in safecharacters() for char in name) else name
+    needs_quotes = (
+        any(char not in safecharacters() for char in name)
+        or name[:1] not in string.ascii_letters  # a bare identifier starts with a letter
+        or name in UVL_KEYWORDS
+    )
+    return f'"{name}"' if needs_quotes else name
 
 
 def safecharacters() -> str:
